@@ -158,6 +158,7 @@ def bind(run):
     ngrid = len(scen)
     scen += cc.directed(rng)
     scen += cc.s2s_directed(rng)
+    scen += cc.s2s_multi_directed()
     scen += cc.float_witness()
     scen += cc.explore(rng, NEXPLORE[run.tier])
     judge(run, scen)
@@ -235,7 +236,7 @@ def judge(run, scen, prefix="c06"):
     need = ["single:replace", "single:delete", "multi:delete", "emptiness:delete", "started_by_controller_round",
             "placements_on_existing_nodes", "placements_on_replacement"]
     if prefix == "c06":
-        need += ["multi:replace", "spot_to_spot:single", "on_demand_replaced:spot", "churn:command", "churn:no-command"]
+        need += ["multi:replace", "spot_to_spot:single", "spot_to_spot:multi", "on_demand_replaced:spot", "churn:command", "churn:no-command"]
         missing = [k for k in need if not cov[k]]
         if missing:
             msg = "vacuous binding: no real command of class %s was judged" % missing
